@@ -577,6 +577,7 @@ class ModuleText:
         self.blocking = False  # the text contains blocking assignments (`variable` signals: lowered Array targets);
                                # read by the independent reader (PyVSim) only, not by the Lean model
         self.mems = {}         # name -> dict(id, w, depth, init_file)
+        self.systasks = False  # the text contains $display / $finish (read by the independent reader only)
 
 
 class ModParser(VParser):
@@ -816,8 +817,27 @@ class ModParser(VParser):
                     cnt += 1
             out += [str(cnt)] + items
             out += (["1"] + dflt) if dflt is not None else ["0"]
-        elif v == "$display" or v == "$finish":
-            raise Unsupported("system task " + v)
+        elif v == "$display":
+            # $display("fmt", arg, ...);  ->  y <hex of fmt> <n> <arg exprs>   (read by PyVSim only)
+            self.next()
+            self.expect("(")
+            k1, fmt = self.next()
+            if k1 != "str":
+                raise ParseError("$display without a format string")
+            args = []
+            n = 0
+            while self.accept(","):
+                self.expr(args)
+                n += 1
+            self.expect(")")
+            self.expect(";")
+            out += ["y", "x" + fmt[1:-1].encode().hex(), str(n)] + args
+            self.mt.systasks = True
+        elif v == "$finish":
+            self.next()
+            self.expect(";")
+            out += ["z"]
+            self.mt.systasks = True
         else:
             k0 = len(out)
             out += ["a"]
@@ -869,11 +889,20 @@ def convert_capture(top, ios, name="top", via=None, **kw):
         cap.ns = ns
         cap.ios = set(ios_)
         return orig(f, ios_, name_, ns, attr_translate, *args, **kwargs)
+    orig_ir = V.insert_resets
+
+    def hook_ir(f):
+        # the sync statements BEFORE reset insertion (the model's `insertReset` is applied to them and must give the
+        # text / the lowered fragment)
+        cap.pre_sync = {k: list(v) for k, v in f.sync.items()}
+        return orig_ir(f)
     V._generate_module = hook
+    V.insert_resets = hook_ir
     try:
         r = via() if via is not None else V.convert(top, ios=set(ios), name=name, **kw)
     finally:
         V._generate_module = orig
+        V.insert_resets = orig_ir
     cap.text = r.main_source
     cap.result = r
     return cap
@@ -886,9 +915,28 @@ def module_signals(cap):
     return sorted(sigs, key=lambda s: s.duid)
 
 
-def ser_module(cap):
-    """Serialise the captured lowered fragment: returns (ids, sections dict)."""
-    from migen.fhdl.tools import group_by_targets
+def sim_target_order(mt):
+    """Targets of the comb items of a text emitted with regular_comb=False, in text order (one item per target:
+    `assign t = ...` or `always @(*) begin t <= reset; ... end`).  A concatenation target (one `assign` driving
+    several signals) is outside the subset tied to the Lean model of the per-target emitter."""
+    order = []
+    for it in mt.items:
+        if it[0] == "assign":
+            if it[1] != "i":
+                raise Unsupported("sim back-end: continuous assignment to a concatenation/select")
+            order.append(int(it[2]))
+        elif it[0] == "comb":
+            if len(it) < 5 or it[2] != "a" or it[3] != "i":
+                raise Unsupported("sim back-end: always @(*) block without a leading default")
+            order.append(int(it[4]))
+    return order
+
+
+def ser_module(cap, variant="synth", target_order=None):
+    """Serialise the captured lowered fragment: returns (ids, sections dict).  variant "sim" (text emitted with
+    regular_comb=False): ONE comb group holding every comb statement in fragment order (what the simulator itself
+    executes), its targets in the order `target_order` of the text."""
+    from migen.fhdl.tools import group_by_targets, flat_iteration
     f = cap.f
     ids = SigIds()
     sigs = module_signals(cap)
@@ -900,19 +948,52 @@ def ser_module(cap):
         if not isinstance(s.reset, Constant):
             raise Unsupported("non-constant reset")
         sec_sigs += [str(s.nbits), "1" if s.signed else "0", str(s.reset.value), ns.get_name(s)]
-    groups = group_by_targets(f.comb)
+    if variant == "sim":
+        flat = list(flat_iteration(f.comb))
+        groups = [(list(target_order), flat)] if flat else []
+    else:
+        groups = group_by_targets(f.comb)
     sec_comb = [str(len(groups))]
     for targets, stmts in groups:
-        sec_comb += ["G", str(len(targets))] + [str(ids.get(t)) for t in sorted(targets, key=lambda x: x.duid)]
+        if variant == "sim":
+            sec_comb += ["G", str(len(targets))] + [str(t) for t in targets]
+        else:
+            sec_comb += ["G", str(len(targets))] + [str(ids.get(t)) for t in sorted(targets, key=lambda x: x.duid)]
         body = []
         n = ser_stmts(stmts, ids, body)
         sec_comb += [str(n)] + body
     sec_sync = [str(len(f.sync))]
+    pre_sync = getattr(cap, "pre_sync", None) or {}
+    nreset = 0
     for cdname, stmts in f.sync.items():
-        clk = f.clock_domains[cdname].clk
+        cd = f.clock_domains[cdname]
+        clk = cd.clk
         body = []
         n = ser_stmts(stmts, ids, body)
-        sec_sync += ["D", cdname, str(ids.get(clk)), str(n)] + body
+        rec = ["D", cdname, str(ids.get(clk)), str(n)] + body
+        if cd.rst is not None and cdname in pre_sync:
+            # serialise the statements as they were BEFORE insert_resets (only if they are in the lowered subset and
+            # name no signal the lowered fragment does not have); the Lean model inserts the reset itself
+            probe = SigIds()
+            probe.ids, probe.sigs = dict(ids.ids), list(ids.sigs)
+            try:
+                pbody = []
+                pn = ser_stmts(pre_sync[cdname], probe, pbody)
+                if len(probe) == len(ids):
+                    from migen.fhdl.tools import list_targets, flat_iteration
+                    rl = sorted(ids.get(t) for t in list_targets(pre_sync[cdname]) if t.reset_less)
+                    # statements appended to the domain AFTER reset insertion (lowered specials, e.g. MultiReg)
+                    flat_post = list(flat_iteration(stmts))
+                    extra = flat_post[pn + 1:]
+                    xbody = []
+                    xn = ser_stmts(extra, ids, xbody)
+                    rec = ["R", cdname, str(ids.get(clk)), str(ids.get(cd.rst)), str(len(rl))] + [str(x) for x in rl] \
+                        + [str(pn)] + pbody + [str(xn)] + xbody
+                    nreset += 1
+            except Unsupported:
+                pass
+        sec_sync += rec
+    cap.reset_modelled = nreset
     if len(ids) != len(sigs):
         raise Unsupported("statement refers to a signal outside list_signals")
     return ids, sigs, groups, dict(sigs=sec_sigs, comb=sec_comb, sync=sec_sync)
@@ -1034,9 +1115,13 @@ def stmt_sites(stmts, ns, out):
 # ----------------------------------------------------------------------------------------------------------
 
 class StmtGen:
-    def __init__(self, rng, eg):
+    def __init__(self, rng, eg, allow_cat=True):
         self.rng = rng
         self.eg = eg
+        # allow_cat=False: no `Cat(a, b).eq(...)` over several signals (for comb groups of modules converted with
+        # regular_comb=False: the per-target emitter repeats such an assignment in the block of every signal it
+        # drives - reported separately, outside the tied domain)
+        self.allow_cat = allow_cat
 
     def sub_slice(self, v, depth=1):
         """Slice of `v`, nested `depth` levels (x[a:b][c:d]…): `_ComplexSliceLowerer` flattens it in the printed
@@ -1063,7 +1148,7 @@ class StmtGen:
             return Array(r.sample(sigs, k=r.randint(2, min(3, len(sigs)))))[self.eg.array_key()]
         if k < 0.55 or len(sigs) == 0:
             return s
-        if k < 0.85:
+        if k < 0.85 or not self.allow_cat:
             return self.sub_slice(s, self.nest_depth())
         parts = []
         for t in r.sample(sigs, k=min(len(sigs), r.randint(2, 3))):
@@ -1135,7 +1220,39 @@ class StmtGen:
         return out
 
 
-def random_module(rng, lowered_exprs=False, maxw=9, tame=False):
+def multi_target_stmts(sg, targets):
+    """Comb statements that drive SEVERAL signals from shared control structure: `Case` whose items and `default`
+    assign different subsets of `targets`, `If`/`Else` with different targets in the two branches, followed by later
+    statements overriding single targets (FHDL: the last assignment wins).  The synthesis emitter prints them as
+    one always block, the simulation emitter (regular_comb=False) as one filtered block per target."""
+    r = sg.rng
+    out = []
+    for _ in range(r.randint(1, 2)):
+        everyone = [_Assign(t if r.random() < 0.7 else sg.sub_slice(t), sg.eg.gen(r.randint(0, 2)))
+                    for t in r.sample(targets, k=len(targets))]
+        some = lambda: sg.stmts(r.sample(targets, k=r.randint(1, len(targets))), 1, n=r.randint(1, 2))
+        if r.random() < 0.6:
+            if hasattr(sg.eg, "case_test"):
+                test = sg.eg.case_test()
+            else:
+                test = sg.eg.atom() if sg.eg.tame else sg.eg.gen(r.randint(0, 1))
+            if hasattr(sg.eg, "case_keys"):
+                keys = sg.eg.case_keys(test)
+            else:
+                keys = r.sample(range(0, 1 << min(len(test), 3)), k=min(r.randint(1, 3), 1 << min(len(test), 3)))
+            cases = {key: some() for key in keys}
+            cases["default"] = everyone
+            out.append(Case(test, cases))
+        else:
+            out.append(If(sg.cond(), *some()).Else(*everyone))
+    for t in r.sample(targets, k=r.randint(1, len(targets))):
+        out.append(If(sg.cond(), _Assign(t if r.random() < 0.6 else sg.sub_slice(t), sg.eg.gen(r.randint(0, 2)))))
+    if r.random() < 0.4:
+        out += sg.stmts(targets, 2, n=1)
+    return out
+
+
+def random_module(rng, lowered_exprs=False, maxw=9, tame=False, sim_variant=False):
     """A small synchronous module: inputs, registers (some signed, some with non-zero reset, some reset-less),
     combinational signals defined in dependency order (acyclic)."""
     from migen import Module, ClockDomain
@@ -1169,6 +1286,17 @@ def random_module(rng, lowered_exprs=False, maxw=9, tame=False):
         m.comb += sg.stmts([c], rng.randint(0, 2))
         combs.append(c)
         readable = readable + [c]
+    multi = []
+    if rng.random() < 0.6:
+        # one comb group driving 2-3 signals from shared If/Case structure (they do not read each other)
+        for k in range(rng.randint(2, 3)):
+            w = rng.randint(1, maxw)
+            signed = rng.random() < ps
+            lo, hi = (-(1 << (w - 1)), (1 << (w - 1)) - 1) if signed else (0, (1 << w) - 1)
+            multi.append(Signal((w, signed), name_override="d%d" % k, reset=rng.choice([0, rng.randint(lo, hi)])))
+        eg = ExprGen(rng, list(readable), lowered=lowered_exprs, tame=tame)
+        m.comb += multi_target_stmts(StmtGen(rng, eg, allow_cat=not sim_variant), multi)
+        readable = readable + multi
     eg = ExprGen(rng, list(readable), lowered=lowered_exprs, tame=tame)
     sg = StmtGen(rng, eg)
     if rng.random() < 0.3:
@@ -1177,12 +1305,13 @@ def random_module(rng, lowered_exprs=False, maxw=9, tame=False):
         ck = Signal(name_override="ckd")
         m.comb += ck.eq(ClockSignal(rng.choice(doms)) ^ ins[0][0])
         combs.append(ck)
+    combs = combs[:1] + multi + combs[1:]
     dom_of = [rng.choice(doms) for _ in regs]       # every register is driven from one clock domain
     for d in doms:
         rs = [r_ for r_, dn in zip(regs, dom_of) if dn == d]
         if rs:
             getattr(m.sync, d).__iadd__(sg.stmts(rs, rng.randint(1, 3)))
-    ios = set(ins) | set(regs[:1]) | set(combs[:2])
+    ios = set(ins) | set(regs[:1]) | set(combs[:2]) | set(multi)
     for d in doms:
         cd = getattr(m, "cd_" + d)
         ios |= {cd.clk, cd.rst}
@@ -1640,6 +1769,8 @@ class PyVSim:
         self.w = {}
         self.state = {}
         self._benv = None
+        self.displayed = []      # ($display format, [(value bits, width, signed)...]) in execution order
+        self.finished = False    # a $finish was executed
         for mname, md in mt.mems.items():
             words = [0] * md["depth"]
             if md["init_file"] is not None:
@@ -1730,6 +1861,17 @@ class PyVSim:
             else:
                 p += 1
             return ("w", v_size(test), items, dflt), p
+        if k == "y":
+            fmt = bytes.fromhex(t[p + 1][1:]).decode()
+            n = int(t[p + 2])
+            p += 3
+            args = []
+            for _ in range(n):
+                a, p = build_vtree(t, p)
+                args.append(v_size(a))
+            return ("y", fmt, args), p
+        if k == "z":
+            return ("z",), p + 1
         raise ParseError("stmt " + k)
 
     def lhs_parts(self, l, v, out):
@@ -1780,6 +1922,10 @@ class PyVSim:
                 upd += parts
             elif s[0] == "f":
                 self.run(s[2] if v_eval(s[1], env, s[1].w, s[1].s) != 0 else s[3], upd)
+            elif s[0] == "y":
+                self.displayed.append((s[1], [(v_eval(a, env, a.w, a.s), a.w, a.s) for a in s[2]]))
+            elif s[0] == "z":
+                self.finished = True
             else:
                 test, items, dflt = s[1], s[2], s[3]
                 W = max([test.w] + [k.w for k, _ in items])
